@@ -21,6 +21,7 @@ MAPS = [
     lambda d: "many" if len(d) >= 2 else "few",
     lambda t: t + timedelta(seconds=10),
     lambda x: None,
+    lambda d: d if len(d) >= 2 else {},
 ]
 # guard the str-only / number-only twins exactly as the Gallina side is total on other types
 _m2 = MAPS[2]
@@ -29,6 +30,8 @@ _m3 = MAPS[3]
 MAPS[3] = lambda d: _m3(d) if isinstance(d, (str, dict)) else _boom()
 _m4 = MAPS[4]
 MAPS[4] = lambda t: _m4(t) if hasattr(t, "tzinfo") else _boom()
+_m6 = MAPS[6]
+MAPS[6] = lambda d: _m6(d) if isinstance(d, dict) else _boom()
 
 
 def _num(x):
@@ -53,6 +56,17 @@ def _t3(x):
     return len(x) > 1
 
 
+class _Range:
+    """two instances of one class: their bound methods share code, defaults and closure but not __self__"""
+    def __init__(self, lo, hi):
+        self.lo, self.hi = lo, hi
+
+    def contains(self, x):
+        if not _num(x):
+            raise TypeError("not a number")
+        return self.lo <= x <= self.hi
+
+
 # (function, args)
 TESTS = [
     (lambda x: x == 1, ()),
@@ -60,6 +74,8 @@ TESTS = [
     (_t2, (1, 5)),
     (_t3, ()),
     (lambda x: True, ()),
+    (_Range(0, 1).contains, ()),
+    (_Range(5, 9).contains, ()),
 ]
 
 
@@ -94,6 +110,16 @@ C_MEAS = [
 ]
 
 
+def _ctg6(d):
+    d["k"] = "new"          # edits the mapping it was handed and returns that very object
+    return d
+
+
+def _cf6(d):
+    d["a"] = 10
+    return d
+
+
 def _ctg3(d):
     if "bad" in d:
         raise RuntimeError("boom")
@@ -107,6 +133,7 @@ C_TAGS = [
     _ctg3,
     lambda d: dict(d),
     lambda d: {"n": None},
+    _ctg6,
 ]
 
 
@@ -123,4 +150,5 @@ C_FIELDS = [
     _cf3,
     lambda d: {"b": None},
     lambda d: {"a": True},
+    _cf6,
 ]
